@@ -309,6 +309,8 @@ def op_reduce(st, op, info):
     form = op.get("form", "letter")
 
     def keyf(d):
+        if form == "name" and sum(1 for x in dims if x.name == d.name) > 1:
+            return d.letter  # a name shared by two dimensions of the array does not address either of them
         return d.letter if form == "letter" else (d.name if form == "name" else d)
 
     keys = tuple(keyf(d) for d in sel)
@@ -533,8 +535,8 @@ def op_df(st, op, info):
     mode = op["mode"]
     info.kind = "df:" + mode
     dims = list(x.dims)
-    if not dims:
-        return
+    if not dims or len({d.name for d in dims}) != len(dims):
+        return  # tables are headed by dimension names: two dimensions of one name have no table form
     info.inputs = [x]
     if mode == "to_df":
         kw = {"index": bool(op.get("index", True)), "sparse": bool(op.get("sparse", False))}
@@ -958,6 +960,8 @@ def op_plot(st, op, info):
         return
     a = cands[op["s"] % len(cands)]
     dims = list(a.dims)
+    if len({d.name for d in dims}) != len(dims):
+        return
     info.kind = "plot:" + op.get("chart", "line")
     info.inputs = [a]
     kw = {"array": a, "intra_line_dim": dims[0].name if op.get("by_name") else dims[0].letter, "chart_type": op.get("chart", "line")}
